@@ -72,6 +72,15 @@ def new_cases(rng, tier):
                                     pad=pad, cols=cols, rows=rows, tty=tty, r0=r0,
                                     animate=True if frames > 1 else rng.random() < 0.5,
                                     hide_cursor=rng.random() < 0.8, echo_input=rng.random() < 0.3))
+    # empty fill: the padding only moves the cursor, every frame still lands on the same cells
+    for pad in ({"kind": "exact", "l": 2, "t": 1, "r": 1, "b": 1, "fill": ""},
+                {"kind": "aligned", "w": 6, "h": 4, "ha": 2, "va": 1, "fill": ""},
+                {"kind": "aligned", "w": 5, "h": 3, "ha": 1, "va": 2, "fill": ""}):
+        for frames, loops in ((1, 1), (2, 1), (3, 2)):
+            for r0 in (0, 2):
+                out.append(dict(api="new", rw=2, rh=2, frames=frames, loops=loops, cache=False, pad=pad,
+                                cols=7, rows=5, tty=True, r0=r0, animate=True, hide_cursor=True,
+                                echo_input=True))
     # a still taller than the screen with allow_scroll
     out.append(dict(api="new", rw=2, rh=3, frames=1, loops=1, cache=False,
                     pad={"kind": "exact", "l": 0, "t": 2, "r": 0, "b": 2}, cols=7, rows=5, tty=True,
@@ -130,8 +139,9 @@ def header(case, res):
             inner = dict(inner="color", last=0, color=drawkit.frame_color(res["path"], last))
         else:
             inner = dict(inner="gfx", last=0, color=[0, 0, 0])
+    fill_empty = case["api"] == "new" and case["pad"].get("fill", " ") == ""
     return dict(cols=cols, rows=rows, r0=case["r0"], pw=pw, ph=ph, l=l, t=t, rw=rw, rh=rh,
-                mode="clean", outcome=res["outcome"], expect="ok", attrs_equal=res["attrs_equal"],
+                fill_empty=fill_empty, mode="clean", outcome=res["outcome"], expect="ok", attrs_equal=res["attrs_equal"],
                 fin=res["fin"], state_same=res["state_same"], **inner)
 
 
